@@ -1,0 +1,158 @@
+use std::num::NonZeroUsize;
+use std::sync::Arc;
+use std::time::Duration;
+
+use crate::client::task::{ClientLoop, SessionError, StateChange};
+use crate::client::Channel;
+use crate::common::frame::{FrameWriter, FramedReader};
+use crate::common::phys::PhysLayer;
+use crate::server::task::{AuthorizationType, SessionTask};
+use crate::server::{AuthorizationHandler, RequestHandler, ServerHandle, ServerHandlerMap};
+use crate::{DecodeLevel, RequestError, Shutdown};
+
+/// Byte stream a session can be run over
+pub trait VerifIo: tokio::io::AsyncRead + tokio::io::AsyncWrite + Send + Unpin {}
+
+impl<T> VerifIo for T where T: tokio::io::AsyncRead + tokio::io::AsyncWrite + Send + Unpin {}
+
+/// Which framing the session uses
+#[derive(Copy, Clone, Debug, PartialEq, Eq)]
+pub enum Framing {
+    /// MBAP (TCP / TLS)
+    Mbap,
+    /// RTU (serial)
+    Rtu,
+}
+
+/// Public mirror of the crate-private reason why a client session ended
+#[derive(Copy, Clone, Debug, PartialEq, Eq)]
+pub enum ClientSessionEnd {
+    /// the stream errored
+    IoError(std::io::ErrorKind),
+    /// unrecoverable framing issue
+    BadFrame,
+    /// channel was disabled
+    Disabled,
+    /// maximum number of consecutive response timeouts reached
+    MaxTimeouts(usize),
+    /// shutdown requested or every handle dropped
+    Shutdown,
+}
+
+impl From<SessionError> for ClientSessionEnd {
+    fn from(value: SessionError) -> Self {
+        match value {
+            SessionError::IoError(x) => Self::IoError(x),
+            SessionError::BadFrame => Self::BadFrame,
+            SessionError::Disabled => Self::Disabled,
+            SessionError::MaxTimeouts(x) => Self::MaxTimeouts(x),
+            SessionError::Shutdown => Self::Shutdown,
+        }
+    }
+}
+
+/// Public mirror of the crate-private reason why a not-connected wait ended early
+#[derive(Copy, Clone, Debug, PartialEq, Eq)]
+pub enum WaitEnd {
+    /// the wait ran to completion
+    Elapsed,
+    /// the channel was disabled
+    Disabled,
+    /// shutdown requested or every handle dropped
+    Shutdown,
+}
+
+/// The production server session (the loop run per TCP/TLS connection and on an open serial port)
+pub struct ServerSessionSim<T: RequestHandler> {
+    session: SessionTask<T>,
+}
+
+/// Construct the production server session exactly as the TCP / TLS / RTU server tasks do
+pub fn server_session<T: RequestHandler>(
+    framing: Framing,
+    handlers: ServerHandlerMap<T>,
+    auth: Option<(Arc<dyn AuthorizationHandler>, String)>,
+    decode: DecodeLevel,
+) -> (ServerHandle, ServerSessionSim<T>) {
+    let (tx, rx) = tokio::sync::mpsc::channel(crate::server::SERVER_COMMAND_CHANNEL_CAPACITY);
+    let auth = match auth {
+        None => AuthorizationType::None,
+        Some((handler, role)) => AuthorizationType::Handler(handler, role),
+    };
+    let (writer, reader) = match framing {
+        Framing::Mbap => (FrameWriter::tcp(), FramedReader::tcp()),
+        Framing::Rtu => (FrameWriter::rtu(), FramedReader::rtu_request()),
+    };
+    let session = SessionTask::new(handlers, auth, writer, reader, rx, decode);
+    (ServerHandle::new(tx), ServerSessionSim { session })
+}
+
+impl<T: RequestHandler> ServerSessionSim<T> {
+    /// Run the session over the stream until it ends. May be called again with a new stream,
+    /// which is what the RTU server task does after a port failure.
+    pub async fn run(&mut self, io: Box<dyn VerifIo>) -> RequestError {
+        let mut phys = PhysLayer::new_verif(io);
+        self.session.run(&mut phys).await
+    }
+
+    /// The wait the RTU server task performs between two attempts to open the port
+    pub async fn sleep_for(&mut self, duration: Duration) -> Result<(), Shutdown> {
+        self.session.sleep_for(duration).await
+    }
+}
+
+/// The production client request loop (what a TCP / TLS / serial channel task drives)
+pub struct ClientSessionSim {
+    inner: ClientLoop,
+}
+
+/// Construct the production client loop exactly as the TCP / TLS / serial channel tasks do
+pub fn client_session(
+    framing: Framing,
+    decode: DecodeLevel,
+    max_timeouts: Option<NonZeroUsize>,
+    queue_capacity: usize,
+) -> (Channel, ClientSessionSim) {
+    let (tx, rx) = tokio::sync::mpsc::channel(queue_capacity);
+    let (writer, reader) = match framing {
+        Framing::Mbap => (FrameWriter::tcp(), FramedReader::tcp()),
+        Framing::Rtu => (FrameWriter::rtu(), FramedReader::rtu_response()),
+    };
+    let inner = ClientLoop::new(rx.into(), writer, reader, decode, max_timeouts);
+    (Channel { tx }, ClientSessionSim { inner })
+}
+
+impl ClientSessionSim {
+    /// Whether the channel is currently enabled
+    pub fn is_enabled(&self) -> bool {
+        self.inner.is_enabled()
+    }
+
+    /// Fail requests until the channel is enabled
+    pub async fn wait_for_enabled(&mut self) -> Result<(), Shutdown> {
+        self.inner.wait_for_enabled().await
+    }
+
+    /// Run one connected session over the stream until it ends
+    pub async fn run(&mut self, io: Box<dyn VerifIo>) -> ClientSessionEnd {
+        let mut phys = PhysLayer::new_verif(io);
+        self.inner.run(&mut phys).await.into()
+    }
+
+    /// Fail requests for the duration, as the channel tasks do while waiting to reconnect
+    pub async fn fail_requests_for(&mut self, duration: Duration) -> WaitEnd {
+        match self.inner.fail_requests_for(duration).await {
+            Ok(()) => WaitEnd::Elapsed,
+            Err(StateChange::Disable) => WaitEnd::Disabled,
+            Err(StateChange::Shutdown) => WaitEnd::Shutdown,
+        }
+    }
+
+    /// Fail requests until the channel is disabled or shut down, as done while connecting
+    pub async fn fail_requests(&mut self) -> WaitEnd {
+        match self.inner.fail_requests().await {
+            StateChange::Disable => WaitEnd::Disabled,
+            StateChange::Shutdown => WaitEnd::Shutdown,
+        }
+    }
+}
